@@ -1,7 +1,7 @@
 (* The N-Triples / N-Quads line tokenizer, term cleaning and literal decoding of the model, run on the
    concrete text of a well-formed statement, return exactly the statement's terms. *)
 Require Import KV.Codec13.Model KV.Codec13.Spec KV.Codec13.Wf KV.Codec13.StrProofs.
-Require Import Lia.
+Require Import Lia PeanoNat.
 
 (* ---------------------------------------------------------------------------------------------- *)
 (* scanning with an explicit lookahead for the last character *)
@@ -148,7 +148,10 @@ Proof. intros. step_unfold. kill_ifs. Qed.
 Lemma step_aq_at : forall ps cur nx, p_step (sM MAfterQ ps cur) cAT nx = sM MLang ps (cAT :: cur).
 Proof. intros. step_unfold. kill_ifs. Qed.
 Lemma step_lang_char : forall ps cur c nx, tag_char c = true -> p_step (sM MLang ps cur) c nx = sM MLang ps (c :: cur).
-Proof. intros ps cur c nx H. unfold tag_char in H. step_unfold. rewrite H. kill_ifs. Qed.
+Proof.
+  intros ps cur c nx H. unfold tag_char in H. apply orb_true_iff in H.
+  step_unfold. destruct H as [H|H]; rewrite H; [|destruct (is_ascii_alnum c)]; kill_ifs.
+Qed.
 
 (* --- a separator character resolves whatever is pending --- *)
 Lemma sp_tab_cases : forall c, sp_tab c = true -> c = cSP \/ c = cTAB.
@@ -200,4 +203,534 @@ Proof.
   clear Hs Hne Hc c. induction w as [|c w IH]; [reflexivity|].
   cbn [forallb] in Hw. apply andb_true_iff in Hw. destruct Hw as [Hc Hw].
   cbn [app p_scan]. rewrite step_sep_clean by exact Hc. apply IH. exact Hw.
+Qed.
+
+(* ---------------------------------------------------------------------------------------------- *)
+(* scanning the text of one term *)
+Lemma rev_snoc_cons : forall (pre : str) c, c :: rev pre = rev (pre ++ [c]).
+Proof. intros. rewrite rev_unit. reflexivity. Qed.
+
+Lemma scan_uri_content : forall content ps pre la, wf_iri content = true ->
+  scan_la (sU ps (rev pre)) (content ++ [cGT]) la = st (trim (pre ++ content ++ [cGT]) :: ps).
+Proof.
+  induction content as [|c content IH]; intros ps pre la H.
+  - cbn [app scan_la]. rewrite step_close_uri. rewrite rev_snoc_cons, rev_involutive. reflexivity.
+  - unfold wf_iri in H. cbn [forallb] in H. apply andb_true_iff in H. destruct H as [Hc H].
+    cbn [app scan_la]. rewrite step_uri_char by exact Hc. rewrite rev_snoc_cons.
+    rewrite IH by exact H. rewrite <- app_assoc. reflexivity.
+Qed.
+
+Lemma scan_bare : forall l ps pre la, forallb iri_char l = true ->
+  scan_la (sB ps (rev pre)) l la = sB ps (rev (pre ++ l)).
+Proof.
+  induction l as [|c l IH]; intros ps pre la H.
+  - rewrite app_nil_r. reflexivity.
+  - cbn [forallb] in H. apply andb_true_iff in H. destruct H as [Hc H].
+    cbn [scan_la]. rewrite step_bare_char by exact Hc. rewrite rev_snoc_cons.
+    rewrite IH by exact H. rewrite <- app_assoc. reflexivity.
+Qed.
+
+Lemma scan_lit_plain : forall l ps pre la, forallb plain_char l = true ->
+  scan_la (sL ps (rev pre)) l la = sL ps (rev (pre ++ l)).
+Proof.
+  induction l as [|c l IH]; intros ps pre la H.
+  - rewrite app_nil_r. reflexivity.
+  - cbn [forallb] in H. apply andb_true_iff in H. destruct H as [Hc H].
+    cbn [scan_la]. rewrite step_lit_plain by exact Hc. rewrite rev_snoc_cons.
+    rewrite IH by exact H. rewrite <- app_assoc. reflexivity.
+Qed.
+
+Lemma hex_plain : forall c, is_hex c = true -> plain_char c = true.
+Proof.
+  intros c H. unfold plain_char.
+  destruct (c =? cDQ) eqn:E1; [apply N.eqb_eq in E1; subst c; discriminate|].
+  destruct (c =? cBS) eqn:E2; [apply N.eqb_eq in E2; subst c; discriminate|].
+  reflexivity.
+Qed.
+
+Lemma hexes_plain : forall d, forallb is_hex d = true -> forallb plain_char d = true.
+Proof.
+  induction d as [|c d IH]; intro H; [reflexivity|].
+  cbn [forallb] in *. apply andb_true_iff in H. destruct H as [Hc H].
+  rewrite hex_plain by exact Hc. apply IH. exact H.
+Qed.
+
+Lemma scan_lchar : forall x ps pre la, wf_lchar x = true ->
+  scan_la (sL ps (rev pre)) (lchar_text x) la = sL ps (rev (pre ++ lchar_text x)).
+Proof.
+  intros x ps pre la H. destruct x as [c|c|d|d]; cbn [lchar_text wf_lchar] in *.
+  - apply scan_lit_plain. cbn [forallb]. rewrite H. reflexivity.
+  - cbn [scan_la]. rewrite step_lit_bs, step_lit_escaped. rewrite !rev_snoc_cons, <- app_assoc. reflexivity.
+  - unfold wf_hex in H. apply andb_true_iff in H. destruct H as [H _]. apply andb_true_iff in H. destruct H as [_ H].
+    cbn [scan_la]. rewrite step_lit_bs.
+    destruct d as [|d0 d'].
+    + rewrite step_lit_escaped. rewrite !rev_snoc_cons, <- app_assoc. reflexivity.
+    + rewrite step_lit_escaped. rewrite !rev_snoc_cons.
+      rewrite scan_lit_plain by (apply hexes_plain; exact H). rewrite <- !app_assoc. reflexivity.
+  - unfold wf_hex in H. apply andb_true_iff in H. destruct H as [H _]. apply andb_true_iff in H. destruct H as [_ H].
+    cbn [scan_la]. rewrite step_lit_bs.
+    destruct d as [|d0 d'].
+    + rewrite step_lit_escaped. rewrite !rev_snoc_cons, <- app_assoc. reflexivity.
+    + rewrite step_lit_escaped. rewrite !rev_snoc_cons.
+      rewrite scan_lit_plain by (apply hexes_plain; exact H). rewrite <- !app_assoc. reflexivity.
+Qed.
+
+Lemma scan_lit_body : forall b ps pre la, forallb wf_lchar b = true ->
+  scan_la (sL ps (rev pre)) (lit_text b) la = sL ps (rev (pre ++ lit_text b)).
+Proof.
+  induction b as [|x b IH]; intros ps pre la H.
+  - cbn [lit_text flat_map]. rewrite app_nil_r. reflexivity.
+  - cbn [forallb] in H. apply andb_true_iff in H. destruct H as [Hx H].
+    unfold lit_text in *. cbn [flat_map]. rewrite scan_la_app.
+    rewrite scan_lchar by exact Hx. rewrite IH by exact H. rewrite <- app_assoc. reflexivity.
+Qed.
+
+Lemma scan_dturi : forall iri ps pre la, forallb (fun c => negb (c =? cGT)) iri = true ->
+  scan_la (sM MDtUri ps (rev pre)) (iri ++ [cGT]) la = st (trim (pre ++ iri ++ [cGT]) :: ps).
+Proof.
+  induction iri as [|c iri IH]; intros ps pre la H.
+  - cbn [app scan_la]. rewrite step_dturi_gt. rewrite rev_snoc_cons, rev_involutive. reflexivity.
+  - cbn [forallb] in H. apply andb_true_iff in H. destruct H as [Hc H]. apply negb_true_iff in Hc.
+    cbn [app scan_la]. rewrite step_dturi_char by exact Hc. rewrite rev_snoc_cons.
+    rewrite IH by exact H. rewrite <- app_assoc. reflexivity.
+Qed.
+
+Lemma scan_lang : forall tag ps pre la, forallb tag_char tag = true ->
+  scan_la (sM MLang ps (rev pre)) tag la = sM MLang ps (rev (pre ++ tag)).
+Proof.
+  induction tag as [|c tag IH]; intros ps pre la H.
+  - rewrite app_nil_r. reflexivity.
+  - cbn [forallb] in H. apply andb_true_iff in H. destruct H as [Hc H].
+    cbn [scan_la]. rewrite step_lang_char by exact Hc. rewrite rev_snoc_cons.
+    rewrite IH by exact H. rewrite <- app_assoc. reflexivity.
+Qed.
+
+(* ---------------------------------------------------------------------------------------------- *)
+(* the text of a well-formed term neither starts nor ends with white space *)
+Definition last_nws (m : str) : Prop := match rev m with [] => True | c :: _ => is_ws c = false end.
+
+Lemma last_nws_snoc : forall m d, is_ws d = false -> last_nws (m ++ [d]).
+Proof. intros m d H. unfold last_nws. rewrite rev_app_distr. exact H. Qed.
+
+Lemma last_nws_app : forall a b, b <> [] -> last_nws b -> last_nws (a ++ b).
+Proof.
+  intros a b Hne H. unfold last_nws in *. rewrite rev_app_distr.
+  destruct (rev b) as [|c r] eqn:E.
+  - apply (f_equal (@rev N)) in E. rewrite rev_involutive in E. contradiction.
+  - exact H.
+Qed.
+
+Lemma last_nws_all : forall m, forallb (fun c => negb (is_ws c)) m = true -> last_nws m.
+Proof.
+  intros m H. unfold last_nws. rewrite <- forallb_rev in H. destruct (rev m) as [|c r]; [exact I|].
+  cbn [forallb] in H. apply andb_true_iff in H. destruct H as [H _]. apply negb_true_iff in H. exact H.
+Qed.
+
+Lemma tight_intro : forall c m, is_ws c = false -> last_nws (c :: m) -> tight (c :: m).
+Proof. intros c m H1 H2. split; assumption. Qed.
+
+Lemma iri_chars_nws : forall l, forallb iri_char l = true -> forallb (fun c => negb (is_ws c)) l = true.
+Proof.
+  induction l as [|c l IH]; intro H; [reflexivity|].
+  cbn [forallb] in *. apply andb_true_iff in H. destruct H as [Hc H].
+  apply iri_char_facts in Hc. destruct Hc as [Hc _]. rewrite Hc. cbn [negb andb]. apply IH. exact H.
+Qed.
+
+Lemma tag_char_nws : forall c, tag_char c = true -> is_ws c = false.
+Proof.
+  intros c H. unfold tag_char, is_ascii_alnum in H.
+  rewrite !orb_true_iff, !andb_true_iff, !N.leb_le, N.eqb_eq in H.
+  assert (B : 45 <= c /\ c <= 122) by (unfold cMINUS in *; lia).
+  unfold is_ws.
+  replace (c <=? 13) with false by (symmetry; apply N.leb_gt; lia).
+  replace (8192 <=? c) with false by (symmetry; apply N.leb_gt; lia).
+  repeat match goal with
+  | |- context [c =? ?k] => replace (c =? k) with false by (symmetry; apply N.eqb_neq; lia)
+  end.
+  rewrite andb_false_r. reflexivity.
+Qed.
+
+Lemma tag_chars_nws : forall l, forallb tag_char l = true -> forallb (fun c => negb (is_ws c)) l = true.
+Proof.
+  induction l as [|c l IH]; intro H; [reflexivity|].
+  cbn [forallb] in *. apply andb_true_iff in H. destruct H as [Hc H].
+  rewrite (tag_char_nws c Hc). cbn [negb andb]. apply IH. exact H.
+Qed.
+
+Definition suffix_text (x : suffix) : str :=
+  match x with
+  | SNone => []
+  | SLang tag => cAT :: tag
+  | SDt iri => cCARET :: cCARET :: cLT :: iri ++ [cGT]
+  end.
+
+Lemma render_lit : forall b x, render_term (TLit b x) = (cDQ :: lit_text b ++ [cDQ]) ++ suffix_text x.
+Proof. intros b x. cbn [render_term app]. rewrite <- app_assoc. destruct x; reflexivity. Qed.
+
+Lemma tight_term : forall t, wf_term_nt t = true -> tight (render_term t).
+Proof.
+  intros t H. destruct t as [s|l|p l|b x|s p o]; cbn [wf_term_nt] in H; try discriminate.
+  - cbn [render_term]. apply tight_ends; reflexivity.
+  - cbn [render_term]. apply tight_intro; [reflexivity|]. apply last_nws_all.
+    cbn [forallb]. apply iri_chars_nws in H. rewrite H. reflexivity.
+  - apply andb_true_iff in H. destruct H as [_ Hx]. rewrite render_lit. cbn [app].
+    apply tight_intro; [reflexivity|].
+    destruct x as [|tag|iri]; cbn [suffix_text].
+    + rewrite app_nil_r. change (cDQ :: lit_text b ++ [cDQ]) with ((cDQ :: lit_text b) ++ [cDQ]).
+      apply last_nws_snoc. reflexivity.
+    + change (cDQ :: (lit_text b ++ [cDQ]) ++ cAT :: tag) with ((cDQ :: lit_text b ++ [cDQ]) ++ cAT :: tag).
+      apply last_nws_app; [discriminate|]. apply last_nws_all. cbn [forallb wf_suffix] in *.
+      rewrite (tag_chars_nws tag Hx). reflexivity.
+    + replace (cDQ :: (lit_text b ++ [cDQ]) ++ cCARET :: cCARET :: cLT :: iri ++ [cGT])
+        with ((cDQ :: (lit_text b ++ [cDQ]) ++ cCARET :: cCARET :: cLT :: iri) ++ [cGT]).
+      * apply last_nws_snoc. reflexivity.
+      * cbn [app]. rewrite <- !app_assoc. reflexivity.
+Qed.
+
+(* ---------------------------------------------------------------------------------------------- *)
+(* after the text of a well-formed term the tokenizer has read exactly that term *)
+Lemma rev_nonempty : forall (l : str) c, rev (l ++ [c]) <> [].
+Proof. intros l c. rewrite rev_unit. discriminate. Qed.
+
+Lemma term_resolves : forall t, wf_term_nt t = true ->
+  forall ps la, Resolves (scan_la (st ps) (render_term t) la) ps (render_term t).
+Proof.
+  intros t H ps la. pose proof (tight_term t H) as Ht. apply trim_tight in Ht.
+  destruct t as [s|l|p l|b x|s p o]; cbn [wf_term_nt] in H; try discriminate.
+  - (* IRI *)
+    cbn [render_term] in *. cbn [scan_la].
+    assert (E : opt_is cLT (match s ++ [cGT] with [] => la | c2 :: _ => Some c2 end) = false).
+    { destruct s as [|c s']; [reflexivity|]. cbn [app]. unfold wf_iri in H. cbn [forallb] in H.
+      apply andb_true_iff in H. destruct H as [Hc _]. apply iri_char_facts in Hc. destruct Hc as (_ & Hc & _).
+      unfold opt_is. exact Hc. }
+    rewrite step_open_uri by exact E.
+    change (sU ps [cLT]) with (sU ps (rev [cLT])). rewrite scan_uri_content by exact H.
+    cbn [app]. rewrite Ht. apply resolves_clean.
+  - (* blank node *)
+    cbn [render_term] in *.
+    change (st ps) with (sB ps (rev [])).
+    rewrite scan_bare by (cbn [forallb]; unfold wf_iri in H; rewrite H; reflexivity).
+    cbn [app]. split.
+    + rewrite end_bare; [rewrite rev_involutive, Ht; reflexivity|].
+      change (95 :: cCOLON :: l) with ([95] ++ cCOLON :: l). rewrite rev_app_distr. cbn [rev app].
+      intro E. apply app_eq_nil in E. destruct E as [_ E]. discriminate.
+    + intros c nx Hc. rewrite step_sep_bare; [rewrite rev_involutive, Ht; reflexivity | exact Hc |].
+      change (95 :: cCOLON :: l) with ([95] ++ cCOLON :: l). rewrite rev_app_distr. cbn [rev app].
+      intro E. apply app_eq_nil in E. destruct E as [_ E]. discriminate.
+  - (* literal *)
+    apply andb_true_iff in H. destruct H as [Hb Hx].
+    rewrite render_lit in *. rewrite scan_la_app.
+    set (la1 := match suffix_text x with [] => la | c :: _ => Some c end).
+    assert (E1 : scan_la (st ps) (cDQ :: lit_text b ++ [cDQ]) la1 = sM MAfterQ ps (rev (cDQ :: lit_text b ++ [cDQ]))).
+    { cbn [scan_la]. replace (match lit_text b ++ [cDQ] with [] => la1 | c2 :: _ => Some c2 end)
+        with (match lit_text b ++ [cDQ] with [] => la1 | c2 :: _ => Some c2 end) by reflexivity.
+      rewrite step_open_lit. change (sL ps [cDQ]) with (sL ps (rev [cDQ])).
+      rewrite scan_la_app. rewrite scan_lit_body by exact Hb. cbn [scan_la].
+      rewrite step_close_lit. rewrite rev_snoc_cons. rewrite <- app_assoc. reflexivity. }
+    rewrite E1. clear E1.
+    destruct x as [|tag|iri]; cbn [suffix_text wf_suffix] in *.
+    + rewrite app_nil_r in *. cbn [scan_la]. split.
+      * rewrite end_aq, rev_involutive, Ht. reflexivity.
+      * intros c nx Hc. rewrite step_sep_aq by exact Hc. rewrite rev_involutive, Ht. reflexivity.
+    + cbn [scan_la]. rewrite step_aq_at. rewrite rev_snoc_cons.
+      rewrite scan_lang by exact Hx. rewrite <- app_assoc. cbn [app] in *. split.
+      * rewrite end_lang, rev_involutive, Ht. reflexivity.
+      * intros c nx Hc. rewrite step_sep_lang by exact Hc. rewrite rev_involutive, Ht. reflexivity.
+    + cbn [scan_la]. rewrite step_aq_caret. rewrite step_caret_caret. rewrite step_dt_lt.
+      rewrite !rev_snoc_cons. rewrite scan_dturi by exact Hx.
+      rewrite <- !app_assoc. cbn [app] in *. rewrite Ht. apply resolves_clean.
+Qed.
+
+(* ---------------------------------------------------------------------------------------------- *)
+(* the tokenizer on a whole statement *)
+Lemma scan_term_then : forall t ps rest, wf_term_nt t = true ->
+  exists s, p_scan (st ps) (render_term t ++ rest) = p_scan s rest /\ Resolves s ps (render_term t).
+Proof.
+  intros t ps rest H. exists (scan_la (st ps) (render_term t) (hd_error rest)).
+  split; [apply p_scan_app | apply term_resolves; exact H].
+Qed.
+
+Lemma parts_terms : forall ts ps t,
+  wf_term_nt t = true -> Forall (fun wt => sep_ok (fst wt) = true /\ wf_term_nt (snd wt) = true) ts ->
+  p_end (p_scan (st ps) (render_term t ++ flat_map (fun wt => fst wt ++ render_term (snd wt)) ts))
+  = rev ps ++ render_term t :: map (fun wt => render_term (snd wt)) ts.
+Proof.
+  induction ts as [|[w t2] ts IH]; intros ps t Ht Hts.
+  - cbn [flat_map map]. destruct (scan_term_then t ps [] Ht) as (s & E & [He _]).
+    rewrite E. cbn [p_scan]. rewrite He. reflexivity.
+  - inversion Hts as [|x y [Hw Ht2] Hrest]; subst. cbn [fst snd] in *.
+    cbn [flat_map map fst snd].
+    destruct (scan_term_then t ps ((w ++ render_term t2) ++ flat_map (fun wt => fst wt ++ render_term (snd wt)) ts) Ht) as (s & E & R).
+    rewrite E. rewrite <- app_assoc. rewrite (resolves_sep s ps (render_term t) w _ R Hw).
+    rewrite IH by assumption. cbn [rev]. rewrite <- app_assoc. reflexivity.
+Qed.
+
+Lemma parse_parts_3 : forall s p o w1 w2,
+  wf_term_nt s = true -> wf_term_nt p = true -> wf_term_nt o = true -> sep_ok w1 = true -> sep_ok w2 = true ->
+  parse_parts (render_term s ++ w1 ++ render_term p ++ w2 ++ render_term o)
+  = [render_term s; render_term p; render_term o].
+Proof.
+  intros s p o w1 w2 Hs Hp Ho H1 H2. unfold parse_parts. change p_init with (st []).
+  generalize (parts_terms [(w1, p); (w2, o)] [] s Hs). cbn [flat_map map fst snd rev app].
+  rewrite app_nil_r, <- !app_assoc. intro G. apply G.
+  repeat constructor; assumption.
+Qed.
+
+Lemma parse_parts_4 : forall s p o g w1 w2 w3,
+  wf_term_nt s = true -> wf_term_nt p = true -> wf_term_nt o = true -> wf_term_nt g = true ->
+  sep_ok w1 = true -> sep_ok w2 = true -> sep_ok w3 = true ->
+  parse_parts (render_term s ++ w1 ++ render_term p ++ w2 ++ render_term o ++ w3 ++ render_term g)
+  = [render_term s; render_term p; render_term o; render_term g].
+Proof.
+  intros s p o g w1 w2 w3 Hs Hp Ho Hg H1 H2 H3. unfold parse_parts. change p_init with (st []).
+  generalize (parts_terms [(w1, p); (w2, o); (w3, g)] [] s Hs). cbn [flat_map map fst snd rev app].
+  rewrite app_nil_r, <- !app_assoc. intro G. apply G.
+  repeat constructor; assumption.
+Qed.
+
+(* ---------------------------------------------------------------------------------------------- *)
+(* decode_ntriples_literal on the text of a literal *)
+Lemma esc_char_cases : forall c, esc_char c = true ->
+  c = 116 \/ c = 98 \/ c = 110 \/ c = 114 \/ c = 102 \/ c = cDQ \/ c = cSQ \/ c = cBS.
+Proof.
+  intros c H. unfold esc_char in H. rewrite !orb_true_iff, !N.eqb_eq in H. tauto.
+Qed.
+
+Lemma dec_hex4 : forall d val r, wf_hex 4 d = true ->
+  dec_body (DHex 4 0) val (d ++ r) = dec_body DNorm (hex_value d :: val) r.
+Proof.
+  intros d val r H. unfold wf_hex in H. apply andb_true_iff in H. destruct H as [H Hv].
+  apply andb_true_iff in H. destruct H as [Hl Hh]. apply Nat.eqb_eq in Hl.
+  destruct d as [|a [|b [|c [|e [|f d]]]]]; try discriminate. clear Hl.
+  cbn [forallb] in Hh. repeat (apply andb_true_iff in Hh; destruct Hh as [? Hh]).
+  unfold hex_value in *. cbn [fold_left] in *.
+  cbn [app dec_body]. rewrite H. cbn [dec_body]. rewrite H0. cbn [dec_body]. rewrite H1. cbn [dec_body]. rewrite H2.
+  rewrite Hv. reflexivity.
+Qed.
+
+Lemma dec_hex8 : forall d val r, wf_hex 8 d = true ->
+  dec_body (DHex 8 0) val (d ++ r) = dec_body DNorm (hex_value d :: val) r.
+Proof.
+  intros d val r H. unfold wf_hex in H. apply andb_true_iff in H. destruct H as [H Hv].
+  apply andb_true_iff in H. destruct H as [Hl Hh]. apply Nat.eqb_eq in Hl.
+  destruct d as [|a1 [|a2 [|a3 [|a4 [|a5 [|a6 [|a7 [|a8 [|a9 d]]]]]]]]]; try discriminate. clear Hl.
+  cbn [forallb] in Hh. repeat (apply andb_true_iff in Hh; destruct Hh as [? Hh]).
+  unfold hex_value in *. cbn [fold_left] in *.
+  cbn [app dec_body]. rewrite H. cbn [dec_body]. rewrite H0. cbn [dec_body]. rewrite H1. cbn [dec_body]. rewrite H2.
+  cbn [dec_body]. rewrite H3. cbn [dec_body]. rewrite H4. cbn [dec_body]. rewrite H5. cbn [dec_body]. rewrite H6.
+  rewrite Hv. reflexivity.
+Qed.
+
+Lemma dec_text : forall b, forallb wf_lchar b = true -> forall val rest,
+  dec_body DNorm val (lit_text b ++ cDQ :: rest) = Some (rev val ++ lit_value b, rest).
+Proof.
+  induction b as [|x b IH]; intros H val rest.
+  - cbn [lit_text flat_map app dec_body lit_value map]. change (cDQ =? cDQ) with true. cbv iota.
+    rewrite app_nil_r. reflexivity.
+  - cbn [forallb] in H. apply andb_true_iff in H. destruct H as [Hx H].
+    unfold lit_text, lit_value in *. cbn [flat_map map]. rewrite <- app_assoc.
+    destruct x as [c|c|d|d]; cbn [lchar_text lchar_value wf_lchar] in *.
+    + unfold plain_char in Hx. apply andb_true_iff in Hx. destruct Hx as [H1 H2].
+      apply negb_true_iff in H1. apply negb_true_iff in H2.
+      cbn [app dec_body]. rewrite H1, H2. rewrite IH by exact H. cbn [rev]. rewrite <- app_assoc. reflexivity.
+    + cbn [app dec_body]. change (cBS =? cDQ) with false. change (cBS =? cBS) with true. cbv iota.
+      destruct (esc_char_cases c Hx) as [E|[E|[E|[E|[E|[E|[E|E]]]]]]]; subst c;
+        cbn [dec_body]; vm_compute (_ =? _); cbv iota; rewrite IH by exact H; cbn [rev]; rewrite <- app_assoc; reflexivity.
+    + cbn [app dec_body]. change (cBS =? cDQ) with false. change (cBS =? cBS) with true. cbv iota.
+      cbn [dec_body]. vm_compute (117 =? _). cbv iota.
+      rewrite dec_hex4 by exact Hx. rewrite IH by exact H. cbn [rev]. rewrite <- app_assoc. reflexivity.
+    + cbn [app dec_body]. change (cBS =? cDQ) with false. change (cBS =? cBS) with true. cbv iota.
+      cbn [dec_body]. vm_compute (85 =? _). cbv iota.
+      rewrite dec_hex8 by exact Hx. rewrite IH by exact H. cbn [rev]. rewrite <- app_assoc. reflexivity.
+Qed.
+
+Lemma decode_rendered_lit : forall b x, forallb wf_lchar b = true ->
+  decode_literal (render_term (TLit b x)) = Some (lit_value b, suffix_text x).
+Proof.
+  intros b x H. rewrite render_lit. cbn [app decode_literal]. change (cDQ =? cDQ) with true. cbv iota.
+  rewrite <- app_assoc. cbn [app]. rewrite dec_text by exact H. reflexivity.
+Qed.
+
+(* ---------------------------------------------------------------------------------------------- *)
+(* clean_ntriples_term on the text of a term gives the term's lexical form *)
+Lemma render_first : forall t, wf_term_nt t = true ->
+  exists c r, render_term t = c :: r /\ (c = cLT \/ c = 95 \/ c = cDQ).
+Proof.
+  intros t H. destruct t as [s|l|p l|b x|s p o]; cbn [wf_term_nt] in H; try discriminate; cbn [render_term]; eauto 6.
+Qed.
+
+Lemma starts_ltlt_iri : forall s, wf_iri s = true -> starts_with sLTLT (cLT :: s ++ [cGT]) = false.
+Proof.
+  intros s H. unfold sLTLT. cbn [starts_with]. change (cLT =? cLT) with true. cbn [andb].
+  destruct s as [|c s]; cbn [app starts_with]; [reflexivity|].
+  unfold wf_iri in H. cbn [forallb] in H. apply andb_true_iff in H. destruct H as [Hc _].
+  apply iri_char_facts in Hc. destruct Hc as (_ & Hc & _). rewrite N.eqb_sym, Hc. reflexivity.
+Qed.
+
+Lemma clean_rendered : forall t, wf_term_nt t = true -> clean_nt_term (render_term t) = lex [] t.
+Proof.
+  intros t H. pose proof (trim_tight _ (tight_term t H)) as Ht. unfold clean_nt_term. rewrite Ht.
+  destruct t as [s|l|p l|b x|s p o]; cbn [wf_term_nt] in H; try discriminate.
+  - cbn [render_term lex]. rewrite starts_ltlt_iri by exact H. cbn [andb].
+    rewrite starts_with_c_cons. change (cLT =? cLT) with true.
+    change (cLT :: s ++ [cGT]) with ((cLT :: s) ++ [cGT]). rewrite ends_with_c_snoc.
+    change (cGT =? cGT) with true. cbn [andb]. change ((cLT :: s) ++ [cGT]) with (cLT :: s ++ [cGT]).
+    apply strip1_wrap.
+  - cbn [render_term lex]. reflexivity.
+  - apply andb_true_iff in H. destruct H as [Hb Hx].
+    rewrite decode_rendered_lit by exact Hb. rewrite render_lit. cbn [app].
+    unfold sLTLT. cbn [starts_with]. change (cLT =? cDQ) with false. cbn [andb].
+    rewrite !starts_with_c_cons. change (cDQ =? cLT) with false. change (cDQ =? cDQ) with true. cbn [andb].
+    destruct x as [|tag|iri]; cbn [suffix_text lex is_empty]; reflexivity.
+Qed.
+
+Lemma rendered_not_a : forall t, wf_term_nt t = true -> str_eqb (render_term t) [97] = false.
+Proof.
+  intros t H. destruct (render_first t H) as (c & r & E & Hc). rewrite E. cbn [str_eqb].
+  destruct Hc as [Hc|[Hc|Hc]]; subst c; reflexivity.
+Qed.
+
+Lemma parse_nt_line_stmt : forall s p o w1 w2,
+  wf_term_nt s = true -> wf_term_nt p = true -> wf_term_nt o = true -> sep_ok w1 = true -> sep_ok w2 = true ->
+  parse_nt_line (render_term s ++ w1 ++ render_term p ++ w2 ++ render_term o) = Some (lex [] s, lex [] p, lex [] o).
+Proof.
+  intros s p o w1 w2 Hs Hp Ho H1 H2. unfold parse_nt_line. rewrite parse_parts_3 by assumption.
+  rewrite rendered_not_a by exact Hp. rewrite !clean_rendered by assumption. reflexivity.
+Qed.
+
+Lemma parse_nq_line_3 : forall s p o w1 w2,
+  wf_term_nt s = true -> wf_term_nt p = true -> wf_term_nt o = true -> sep_ok w1 = true -> sep_ok w2 = true ->
+  parse_nq_line (render_term s ++ w1 ++ render_term p ++ w2 ++ render_term o) = Some (lex [] s, lex [] p, lex [] o, None).
+Proof.
+  intros s p o w1 w2 Hs Hp Ho H1 H2. unfold parse_nq_line. rewrite parse_parts_3 by assumption.
+  rewrite !clean_rendered by assumption. reflexivity.
+Qed.
+
+Lemma parse_nq_line_4 : forall s p o g w1 w2 w3,
+  wf_term_nt s = true -> wf_term_nt p = true -> wf_term_nt o = true -> wf_term_nt g = true ->
+  sep_ok w1 = true -> sep_ok w2 = true -> sep_ok w3 = true ->
+  parse_nq_line (render_term s ++ w1 ++ render_term p ++ w2 ++ render_term o ++ w3 ++ render_term g)
+  = Some (lex [] s, lex [] p, lex [] o, Some (lex [] g)).
+Proof.
+  intros s p o g w1 w2 w3 Hs Hp Ho Hg H1 H2 H3. unfold parse_nq_line. rewrite parse_parts_4 by assumption.
+  rewrite !clean_rendered by assumption. reflexivity.
+Qed.
+
+(* ---------------------------------------------------------------------------------------------- *)
+(* the per-line wrapper: trim, skip blank lines and comments, require and drop the final dot *)
+Lemma drop_while_snoc : forall f a c, f c = false -> drop_while f (a ++ [c]) = drop_while f a ++ [c].
+Proof.
+  intros f a c H. induction a as [|x a IH]; cbn [app drop_while]; [rewrite H; reflexivity|].
+  destruct (f x); [exact IH | reflexivity].
+Qed.
+
+Lemma trim_end_cons : forall c m, is_ws c = false -> trim_end (c :: m) = c :: rev (drop_while is_ws (rev m)).
+Proof.
+  intros c m H. unfold trim_end. cbn [rev]. rewrite drop_while_snoc by exact H. rewrite rev_unit. reflexivity.
+Qed.
+
+Lemma statement_blank : forall ws, ws_ok ws = true -> statement_of_line ws = None.
+Proof. intros ws H. unfold statement_of_line. rewrite trim_all_ws by exact H. reflexivity. Qed.
+
+Lemma statement_comment : forall ws text, ws_ok ws = true -> statement_of_line (ws ++ cHASH :: text) = None.
+Proof.
+  intros ws text H. unfold statement_of_line, trim, trim_start.
+  rewrite drop_while_all by exact H. rewrite drop_while_stop by reflexivity.
+  rewrite trim_end_cons by reflexivity. cbn [is_empty starts_with_c]. change (cHASH =? cHASH) with true. reflexivity.
+Qed.
+
+(* the text of three or four terms with separators: tight, not empty, not a comment *)
+Lemma tight_concat : forall a m b, tight a -> a <> [] -> tight b -> b <> [] -> tight (a ++ m ++ b).
+Proof.
+  intros a m b [Ha _] Hna [_ Hb] Hnb. destruct a as [|c a']; [contradiction|].
+  cbn [app]. apply tight_intro; [exact Ha|].
+  replace (c :: a' ++ m ++ b) with ((c :: a' ++ m) ++ b) by (cbn [app]; rewrite <- app_assoc; reflexivity).
+  apply last_nws_app; assumption.
+Qed.
+
+Lemma render_nonempty : forall t, wf_term_nt t = true -> render_term t <> [].
+Proof. intros t H. destruct (render_first t H) as (c & r & E & _). rewrite E. discriminate. Qed.
+
+Lemma statement_core : forall X w0 w3 w4,
+  tight X -> (exists c r, X = c :: r /\ (c =? cHASH) = false) ->
+  ws_ok w0 = true -> ws_ok w3 = true -> ws_ok w4 = true ->
+  statement_of_line (w0 ++ X ++ w3 ++ cDOT :: w4) = Some X.
+Proof.
+  intros X w0 w3 w4 HX (c & r & EX & Hc) H0 H3 H4. unfold statement_of_line.
+  assert (T : tight ((X ++ w3) ++ [cDOT])).
+  { subst X. cbn [app]. apply tight_intro; [apply HX|]. change (c :: (r ++ w3) ++ [cDOT]) with ((c :: r ++ w3) ++ [cDOT]).
+    apply last_nws_snoc. reflexivity. }
+  replace (w0 ++ X ++ w3 ++ cDOT :: w4) with (w0 ++ ((X ++ w3) ++ [cDOT]) ++ w4)
+    by (rewrite <- !app_assoc; reflexivity).
+  rewrite trim_pad by assumption.
+  assert (E1 : is_empty ((X ++ w3) ++ [cDOT]) = false) by (subst X; reflexivity).
+  assert (E2 : starts_with_c cHASH ((X ++ w3) ++ [cDOT]) = false) by (subst X; cbn [app starts_with_c]; exact Hc).
+  rewrite E1, E2. cbn [orb]. rewrite ends_with_c_snoc. change (cDOT =? cDOT) with true. cbn [negb].
+  rewrite removelast_snoc.
+  generalize (trim_pad [] X w3 eq_refl H3 HX). cbn [app]. intro E. rewrite E. reflexivity.
+Qed.
+
+Lemma first_not_hash : forall t rest, wf_term_nt t = true ->
+  exists c r, render_term t ++ rest = c :: r /\ (c =? cHASH) = false.
+Proof.
+  intros t rest H. destruct (render_first t H) as (c & r & E & Hc). rewrite E. exists c, (r ++ rest).
+  split; [reflexivity|]. destruct Hc as [Hc|[Hc|Hc]]; subst c; reflexivity.
+Qed.
+
+Definition drop_graph (q : squad) : str * str * str := let '(s, p, o, _) := q in (s, p, o).
+
+Lemma nq_line_item : forall i, wf_item_nq i = true -> nq_line (render_item i) = item_quads [] i.
+Proof.
+  intros i H. unfold nq_line. destruct i as [ws|ws text|pd s p o g|name iri|s pos]; cbn [wf_item_nq] in H; try discriminate.
+  - cbn [render_item item_quads]. rewrite statement_blank by exact H. reflexivity.
+  - cbn [render_item item_quads]. rewrite statement_comment by exact H. reflexivity.
+  - destruct g as [g|].
+    + repeat (apply andb_true_iff in H; destruct H as [H ?]).
+      unfold wf_pad_nt in H. repeat (apply andb_true_iff in H; destruct H as [H ?]).
+      cbn [render_item item_quads]. unfold render_stmt.
+      replace (w0 pd ++ render_term s ++ w1 pd ++ render_term p ++ w2 pd ++ render_term o ++ (wg pd ++ render_term g) ++ w3 pd ++ cDOT :: w4 pd)
+        with (w0 pd ++ (render_term s ++ w1 pd ++ render_term p ++ w2 pd ++ render_term o ++ wg pd ++ render_term g) ++ w3 pd ++ cDOT :: w4 pd)
+        by (rewrite <- !app_assoc; reflexivity).
+      rewrite statement_core; try assumption.
+      * rewrite parse_nq_line_4 by assumption. reflexivity.
+      * replace (render_term s ++ w1 pd ++ render_term p ++ w2 pd ++ render_term o ++ wg pd ++ render_term g)
+          with (render_term s ++ (w1 pd ++ render_term p ++ w2 pd ++ render_term o ++ wg pd) ++ render_term g)
+          by (rewrite <- !app_assoc; reflexivity).
+        apply tight_concat; try apply tight_term; try apply render_nonempty; assumption.
+      * apply first_not_hash. assumption.
+    + repeat (apply andb_true_iff in H; destruct H as [H ?]).
+      unfold wf_pad_nt in H. repeat (apply andb_true_iff in H; destruct H as [H ?]).
+      cbn [render_item item_quads]. unfold render_stmt. cbn [app].
+      replace (w0 pd ++ render_term s ++ w1 pd ++ render_term p ++ w2 pd ++ render_term o ++ w3 pd ++ cDOT :: w4 pd)
+        with (w0 pd ++ (render_term s ++ w1 pd ++ render_term p ++ w2 pd ++ render_term o) ++ w3 pd ++ cDOT :: w4 pd)
+        by (rewrite <- !app_assoc; reflexivity).
+      rewrite statement_core; try assumption.
+      * rewrite parse_nq_line_3 by assumption. reflexivity.
+      * replace (render_term s ++ w1 pd ++ render_term p ++ w2 pd ++ render_term o)
+          with (render_term s ++ (w1 pd ++ render_term p ++ w2 pd) ++ render_term o)
+          by (rewrite <- !app_assoc; reflexivity).
+        apply tight_concat; try apply tight_term; try apply render_nonempty; assumption.
+      * apply first_not_hash. assumption.
+Qed.
+
+Lemma nt_line_item : forall i, wf_item_nt i = true -> nt_line (render_item i) = map drop_graph (item_quads [] i).
+Proof.
+  intros i H. unfold wf_item_nt in H. apply andb_true_iff in H. destruct H as [H Hg].
+  unfold nt_line. destruct i as [ws|ws text|pd s p o g|name iri|s pos]; cbn [wf_item_nq] in H; try discriminate.
+  - cbn [render_item item_quads map]. rewrite statement_blank by exact H. reflexivity.
+  - cbn [render_item item_quads map]. rewrite statement_comment by exact H. reflexivity.
+  - destruct g as [g|]; [discriminate|].
+    repeat (apply andb_true_iff in H; destruct H as [H ?]).
+    unfold wf_pad_nt in H. repeat (apply andb_true_iff in H; destruct H as [H ?]).
+    cbn [render_item item_quads map drop_graph]. unfold render_stmt. cbn [app].
+    replace (w0 pd ++ render_term s ++ w1 pd ++ render_term p ++ w2 pd ++ render_term o ++ w3 pd ++ cDOT :: w4 pd)
+      with (w0 pd ++ (render_term s ++ w1 pd ++ render_term p ++ w2 pd ++ render_term o) ++ w3 pd ++ cDOT :: w4 pd)
+      by (rewrite <- !app_assoc; reflexivity).
+    rewrite statement_core; try assumption.
+    + rewrite parse_nt_line_stmt by assumption. reflexivity.
+    + replace (render_term s ++ w1 pd ++ render_term p ++ w2 pd ++ render_term o)
+        with (render_term s ++ (w1 pd ++ render_term p ++ w2 pd) ++ render_term o)
+        by (rewrite <- !app_assoc; reflexivity).
+      apply tight_concat; try apply tight_term; try apply render_nonempty; assumption.
+    + apply first_not_hash. assumption.
 Qed.
